@@ -39,27 +39,33 @@ def demo : B := (run {} demoEvs).1
 
 /-! ## (a) what a hand-over is -/
 
-/-- **(a)** Every output of `onPublish`, of the subscriber loop `fanout` and of
-`releaseAll` is a PUBLISH written to a connection or a callback invocation —
+/-- **(a)** Every output of `onPublish`, of its live fan-out `fanoutLive`, of the
+bare subscriber loop `fanout` and of `releaseAll` is a PUBLISH written to a connection or a callback invocation —
 never an acknowledgement, never a `closed` — and none of them touches the
 connection table, the session objects, the session store, the session
 reference counter or the subscription tree (only the retained tree and the
 packet-identifier counter may change). -/
 theorem onPublish_outputs (b : B) (m : Msg) (subs : List (Nat × Nat)) (l : List QEntry) :
     (Frame b (onPublish b m).1 ∧ ∀ o ∈ (onPublish b m).2.2.1, HandOver o) ∧
+    (Frame b (fanoutLive b m subs).1 ∧ (fanoutLive b m subs).1.topics = b.topics ∧
+      ∀ o ∈ (fanoutLive b m subs).2.2, HandOver o) ∧
     (Frame b (fanout b m subs).1 ∧ (fanout b m subs).1.topics = b.topics ∧
       ∀ o ∈ (fanout b m subs).2.2, HandOver o) ∧
     (Frame b (releaseAll b l).1 ∧ ∀ o ∈ (releaseAll b l).2, HandOver o) :=
   ⟨⟨(onPublish_frame b m).1, fun o ho => handOver_of ((onPublish_frame b m).2 o ho)⟩,
+   ⟨(fanoutLive_frame b m subs).1, (fanoutLive_frame b m subs).2.1,
+    fun o ho => handOver_of ((fanoutLive_frame b m subs).2.2 o ho)⟩,
    ⟨(fanout_frame b m subs).1, (fanout_frame b m subs).2.1,
     fun o ho => handOver_of ((fanout_frame b m subs).2.2 o ho)⟩,
    ⟨(releaseAll_frame b l).1, fun o ho => handOver_of ((releaseAll_frame b l).2 o ho)⟩⟩
 
-/-- on the demo state a retained QoS 1 publish of `t` reaches connection 1
-(RETAIN cleared) and the callback (object as is, E10) -/
+/-- on the demo state a retained QoS 1 publish of `t` reaches connection 1 and
+the in-process callback, both with RETAIN cleared; the message object has its
+flag back afterwards -/
 example : (onPublish demo ⟨{ qos := 1, retain := true, topic := [116], pktid := 7, payload := [1] }, false⟩).2.2.1 =
     [.send 1 (.publish { qos := 1, topic := [116], pktid := 7, payload := [1] }),
-     .call 1000 { qos := 1, retain := true, topic := [116], pktid := 7, payload := [1] }] := by
+     .call 1000 { qos := 1, retain := false, topic := [116], pktid := 7, payload := [1] }] ∧
+    (onPublish demo ⟨{ qos := 1, retain := true, topic := [116], pktid := 7, payload := [1] }, false⟩).2.1.p.retain = true := by
   decide
 
 /-! ## The representation invariant
